@@ -24,6 +24,7 @@ fn gen_indexes(rng: &mut Rng) -> Vec<IndexDef> {
         ("CREATE INDEX ix_adb ON t (a DESC, b)", "desc-multi"),
         ("CREATE UNIQUE INDEX ux_u ON t (u)", "unique"),
         ("CREATE INDEX ix_b ON t (b)", "single-b"),
+        ("CREATE UNIQUE INDEX ux_au ON t (a, u)", "unique-multi"),
     ];
     let n = if rng.chance(2, 3) { 1 } else { rng.range(2, 3) as usize };
     let mut picks: Vec<usize> = (0..pool.len()).collect();
@@ -140,6 +141,7 @@ fn classify(x: &[CRow], y: &[CRow], same_rows: bool, keys: &[(usize, bool)], pre
         "id" => 0,
         "a" => 1,
         "b" => 2,
+        "u" => 4,
         _ => 3,
     };
     if same_rows || multiset_eq(x, y, 0.0) {
@@ -184,7 +186,7 @@ fn classify(x: &[CRow], y: &[CRow], same_rows: bool, keys: &[(usize, bool)], pre
         if extra.iter().all(|r| y.iter().any(|q| crate::core::canon::rows_eq(q, r, 0.0))) {
             return "extra-rows:row-returned-more-than-once".into();
         }
-        if extra.iter().all(|r| pred_cols.iter().any(|i| *i < 4 && r[*i].is_null()) || (pred.contains("u ") )) {
+        if extra.iter().all(|r| pred_cols.iter().any(|i| *i < 5 && r[*i].is_null()) || (pred.contains("u ") )) {
             return "extra-rows:null-key-matched-by-index-range".into();
         }
     }
@@ -235,15 +237,18 @@ fn one_case(ctx: &mut Ctx, case: u64, rng: &mut Rng) {
     let mut next_id = 1i64;
     let mut ints: Vec<i64> = Vec::new();
     let null_pct = *rng.pick(&[0u64, 15, 40]);
+    // "duplicate-friendly" data: few distinct a values and many NULL u, so that several rows share a
+    // (partly NULL) key of a UNIQUE / composite index
+    let dup_mode = rng.chance(1, 3);
     let n_stmts = rng.range(3, 14);
     let mut dml_after = false;
     for step in 0..n_stmts {
         let sql = match if step < 3 { 0 } else { rng.below(8) } {
             0..=3 => {
-                let av = if rng.chance(null_pct, 100) { "NULL".to_string() } else { rng.range(-3, 6).to_string() };
+                let av = if rng.chance(null_pct, 100) { "NULL".to_string() } else if dup_mode { rng.range(1, 2).to_string() } else { rng.range(-3, 6).to_string() };
                 let bv = if rng.chance(null_pct, 100) { "NULL".to_string() } else { rng.range(-3, 6).to_string() };
                 let cv = if rng.chance(null_pct, 100) { "NULL".to_string() } else { format!("'{}'", rng.pick(&TEXT_VALS)) };
-                let uv = if rng.chance(1, 6) { "NULL".to_string() } else if rng.chance(1, 8) { rng.range(1, next_id.max(1)).to_string() } else { (100 + next_id).to_string() };
+                let uv = if rng.chance(if dup_mode { 4 } else { 1 }, 6) { "NULL".to_string() } else if rng.chance(1, 8) { rng.range(1, next_id.max(1)).to_string() } else { (100 + next_id).to_string() };
                 if let Ok(v) = av.parse::<i64>() {
                     ints.push(v);
                 }
@@ -253,13 +258,16 @@ fn one_case(ctx: &mut Ctx, case: u64, rng: &mut Rng) {
             }
             4 | 5 => {
                 dml_after = true;
-                let set = match rng.below(4) {
+                let set = match rng.below(6) {
+                    4 => "u = NULL".to_string(),
+                    5 => format!("u = {}", 500 + step),
                     0 => format!("a = {}", rng.range(-3, 6)),
                     1 => "a = NULL".to_string(),
                     2 => format!("c = '{}'", rng.pick(&TEXT_VALS)),
                     _ => format!("a = a + 1, b = {}", rng.range(-3, 6)),
                 };
                 let (p, _) = gen_pred(rng, &ints, 0);
+                let p = if rng.chance(1, 3) { format!("id = {}", rng.range(1, next_id.max(1))) } else { p };
                 format!("UPDATE t SET {} WHERE {}", set, p)
             }
             _ => {
@@ -308,21 +316,27 @@ fn one_case(ctx: &mut Ctx, case: u64, rng: &mut Rng) {
     // queries
     for _ in 0..12 {
         let (pred, pkind) = gen_pred(rng, &ints, 1);
-        let order = match rng.below(5) {
+        let multi_order = rng.chance(1, 8);
+        let order = match rng.below(6) {
+            _ if multi_order => Some(("a, b", 1usize, false)),
             0 | 1 => None,
             2 => Some(("a", 1usize, false)),
             3 => Some(("a", 1, true)),
+            4 => Some(("u", 4, rng.chance(1, 3))),
             _ => Some(("c", 3, rng.chance(1, 2))),
         };
         let use_where = rng.chance(5, 6);
-        let mut sql = format!("SELECT id, a, b, c FROM t{}", if use_where { format!(" WHERE {}", pred) } else { String::new() });
+        let mut sql = format!("SELECT id, a, b, c, u FROM t{}", if use_where { format!(" WHERE {}", pred) } else { String::new() });
         let mut keys: Vec<(usize, bool)> = Vec::new();
         let mut limited = false;
         if let Some((col, idx, desc)) = order {
             let total_order = rng.chance(1, 2);
             sql.push_str(&format!(" ORDER BY {}{}", col, if desc { " DESC" } else { "" }));
             keys.push((idx, desc));
-            if total_order {
+            if multi_order {
+                keys.push((2, false));
+            }
+            if total_order && !multi_order {
                 sql.push_str(", id");
                 keys.push((0, false));
                 if rng.chance(1, 2) {
@@ -336,11 +350,11 @@ fn one_case(ctx: &mut Ctx, case: u64, rng: &mut Rng) {
         let used_index = a.hit("index_scan");
         let okind = match order { None => "noorder".to_string(), Some((c, _, d)) => format!("order:{}{}", c, if d { ":desc" } else { "" }) };
         let pclass = if !use_where { "nowhere".to_string() } else { pkind.split('[').next().unwrap_or("").trim_end_matches(|c: char| "<>=".contains(c)).to_string() };
-        let has_nulls = rb.as_ref().map(|rows| rows.iter().any(|r| r[1..4].iter().any(|c| c.is_null()))).unwrap_or(false);
+        let has_nulls = rb.as_ref().map(|rows| rows.iter().any(|r| r[1..5].iter().any(|c| c.is_null()))).unwrap_or(false);
         let sig_tail = format!("idx={}|dml={}|nulls={}|pred={}|{}{}", idx_kinds.join("+"), dml_after as u8, has_nulls as u8, pclass, okind, if limited { "|limit" } else { "" });
         match (&oa, &ob) {
             (Outcome::Rows(x), Outcome::Rows(y)) => {
-                let total = keys.len() == 2;
+                let total = keys.len() == 2 && !multi_order;
                 let same = if total { seq_eq(x, y, 0.0) } else { multiset_eq(x, y, 0.0) };
                 if !same || (!keys.is_empty() && !sorted_by(x, &keys)) {
                     let sig = classify(x, y, same, &keys, &pred, use_where, &idx_kinds, &sig_tail);
